@@ -94,6 +94,14 @@ def auto_summarise(I, st, env, rng):
         senv = Env(env.parent, env.module, func=env.func)
         senv.vars = dict(snap_vars)
         senv.globals_decl, senv.nonlocal_decl = env.globals_decl, env.nonlocal_decl
+        # a closure defined in this function BEFORE the loop reads and writes the function's scope, which for the
+        # duration of this body is `senv` (Python has one scope per function, not one per loop body)
+        import copy as _copy
+        for k_, v_ in list(senv.vars.items()):
+            if type(v_).__name__ == "FuncVal" and getattr(v_, "env", None) is env:
+                v2_ = _copy.copy(v_)
+                v2_.env = senv
+                senv.vars[k_] = v2_
         captured = {}
         saved = {lid: list(v) for lid, (v, _) in outer_lists.items() if isinstance(v, list)}
         I.assign_target(st.target, rng.item(i), senv)
